@@ -324,7 +324,37 @@ type simService struct {
 	reqs              map[string][]byte
 	calls             int
 	maxCalls          int
+	// fault plan of each task's current operation (aborted-operation faults:
+	// the k-th RPC of the operation fails, or the operation's context is
+	// cancelled there); a task touches only its own slots
+	cancels []context.CancelFunc
+	fkind   []int
+	fat     []int
+	flabel  []int
+	fperiod []int
+	fcount  []int
+	fired   []bool
 }
+
+var rpcKinds = [...]string{"", "GetRequirements", "GetPackage", "GetVersion"}
+
+func (sv *simService) enableFaults() {
+	n := kernel.MaxTasks
+	sv.cancels = make([]context.CancelFunc, n)
+	sv.fkind, sv.fat, sv.flabel, sv.fperiod, sv.fcount, sv.fired = make([]int, n), make([]int, n), make([]int, n), make([]int, n), make([]int, n), make([]bool, n)
+}
+
+func (sv *simService) plan(t, kind, label, at, period int) {
+	if sv.fkind == nil {
+		return
+	}
+	sv.fkind[t], sv.flabel[t], sv.fat[t], sv.fperiod[t], sv.fcount[t], sv.fired[t] = kind, label, at, period, 0, false
+}
+
+func (sv *simService) taskFired(t int) bool { return sv.fired != nil && sv.fired[t] }
+
+var errRPCUnavailable = status.Error(codes.Unavailable, "injected fault: service unavailable")
+var errRPCCanceled = status.Error(codes.Canceled, "context canceled")
 
 func pbDeps(d svcDeps) *pb.Requirements_NPM_Dependencies {
 	conv := func(ds []svcDep) []*pb.Requirements_NPM_Dependencies_Dependency {
@@ -402,6 +432,42 @@ func (sv *simService) rpc(label string) error {
 	if s.IsAborted() {
 		return status.Error(codes.Canceled, "simulation budget exceeded")
 	}
+	if sv.fkind == nil {
+		return nil
+	}
+	t := s.CurTask()
+	if t >= len(sv.fkind) || sv.fkind[t] == faultNone {
+		return nil
+	}
+	aimed := sv.flabel[t] == 0 || rpcKinds[sv.flabel[t]] == label
+	if aimed {
+		sv.fcount[t]++
+	}
+	if sv.fcount[t] >= sv.fat[t] && (sv.fired[t] || aimed) {
+		first := !sv.fired[t]
+		sv.fired[t] = true
+		switch sv.fkind[t] {
+		case faultCancel:
+			if first && sv.cancels[t] != nil {
+				sv.cancels[t]()
+			}
+		case faultCancelCalls:
+			if first && sv.cancels[t] != nil {
+				sv.cancels[t]()
+			}
+			return errRPCCanceled
+		case faultErrOnce:
+			if first {
+				return errRPCUnavailable
+			}
+		case faultErrFrom:
+			return errRPCUnavailable
+		case faultErrEvery:
+			if aimed && (sv.fcount[t]-sv.fat[t])%sv.fperiod[t] == 0 {
+				return errRPCUnavailable
+			}
+		}
+	}
 	return nil
 }
 
@@ -460,6 +526,7 @@ type c18Call struct {
 	key      resolve.VersionKey
 	call     uint64
 	ret      uint64
+	faulted  bool   // returned while a fault of the caller's operation had fired
 	found    bool   // no error
 	notFound bool   // errors.Is(err, ErrNotFound)
 	errText  string // any other error
@@ -468,6 +535,8 @@ type c18Call struct {
 
 type c18Recorder struct {
 	inner   *resolve.APIClient
+	svc     *simService
+	base    uint64 // added to the stamps (phases after the first)
 	s       *kernel.Sched
 	perTask [][]c18Call
 	ncalls  []int
@@ -503,13 +572,14 @@ func (r *c18Recorder) begin(kind string, key resolve.VersionKey) (int, int, erro
 	if r.s.IsAborted() {
 		return t, -1, errBudget
 	}
-	r.perTask[t] = append(r.perTask[t], c18Call{task: t, kind: kind, key: key, call: r.s.Stamp()})
+	r.perTask[t] = append(r.perTask[t], c18Call{task: t, kind: kind, key: key, call: r.base + r.s.Stamp()})
 	return t, len(r.perTask[t]) - 1, nil
 }
 
 func (r *c18Recorder) end(t, i int, err error, digest string) {
 	c := &r.perTask[t][i]
-	c.ret = r.s.Stamp()
+	c.ret = r.base + r.s.Stamp()
+	c.faulted = r.svc.taskFired(t)
 	switch {
 	case err == nil:
 		c.found = true
@@ -570,13 +640,28 @@ type c18Op struct {
 	desc  string
 	pv    any
 	nodes int
+	// aborted-operation fault (see common.go): kind, the RPC it fires at,
+	// the kind of RPC it is aimed at, whether it fired; invoke/return stamps
+	Fault      int
+	FaultAt    int
+	FaultLabel int
+	fired      bool
+	start, end uint64
 }
 
 func (o *c18Op) String() string {
+	s := o.Kind + " " + o.Key.Name + " " + o.Key.Version
 	if o.Kind == "Versions" {
-		return "Versions " + o.Key.Name
+		s = "Versions " + o.Key.Name
 	}
-	return o.Kind + " " + o.Key.Name + " " + o.Key.Version
+	if o.Fault != faultNone {
+		what := "RPC"
+		if o.FaultLabel != 0 {
+			what = rpcKinds[o.FaultLabel] + " call"
+		}
+		s += fmt.Sprintf(" [fault: %s at %s %d]", faultNames[o.Fault], what, o.FaultAt)
+	}
+	return s
 }
 
 // expected answers of the model (reference LocalClient) for one call.
@@ -738,6 +823,41 @@ func RunC18(t *kernel.Tape, o Opts) *Result {
 			programs = append(programs, ops)
 		}
 	}
+	// Aborted operations (a third of the runs): an RPC of the operation fails
+	// (Unavailable), or the operation's context is cancelled, somewhere in the
+	// middle. What such an operation returns is not judged, and a call that
+	// fails while the fault is in effect is not an unexpected error; every call
+	// that succeeds is judged as always, and so is everything that runs after
+	// the faults have stopped.
+	faulty := t.Bool(1, 3)
+	var epilogue []*c18Op
+	if faulty {
+		for _, ops := range programs {
+			for j, op := range ops {
+				if !concurrent && j == len(ops)-1 {
+					break // a history ends with a clean operation
+				}
+				if t.Bool(1, 2) {
+					op.Fault = 1 + t.Choose(numFaultKinds-1)
+					op.FaultAt = 1 + t.Choose(12)
+					if op.Kind != "Resolve" {
+						op.FaultAt = 1 + t.Choose(2)
+					}
+					if t.Bool(1, 2) {
+						op.FaultLabel = 1 + t.Choose(len(rpcKinds)-1)
+					}
+					if j+1 < len(ops) && t.Bool(1, 2) {
+						ops[j+1] = &c18Op{Kind: op.Kind, Key: op.Key} // the same again, unharmed
+					}
+				}
+			}
+		}
+		if concurrent {
+			for i, n := 0, t.Range(1, 3); i < n; i++ {
+				epilogue = append(epilogue, drawOp())
+			}
+		}
+	}
 	var cfg kernel.Config
 	if concurrent {
 		cfg = drawSched(t, []string{"GetRequirements", "GetPackage", "GetVersion", "lock:", "op"})
@@ -747,7 +867,7 @@ func RunC18(t *kernel.Tape, o Opts) *Result {
 	ctx := context.Background()
 	refSig := map[resolve.VersionKey]string{}
 	refDesc := map[resolve.VersionKey]string{}
-	for _, ops := range programs {
+	for _, ops := range append(append([][]*c18Op(nil), programs...), epilogue) {
 		for _, op := range ops {
 			if op.Kind != "Resolve" {
 				continue
@@ -776,16 +896,41 @@ func RunC18(t *kernel.Tape, o Opts) *Result {
 	s := kernel.NewSched(t, cfg)
 	service.s = s
 	api := resolve.NewAPIClient(service)
-	rec := &c18Recorder{inner: api, s: s, perTask: make([][]c18Call, kernel.MaxTasks), ncalls: make([]int, kernel.MaxTasks), maxCall: 4000}
+	if faulty {
+		service.enableFaults()
+	}
+	rec := &c18Recorder{inner: api, svc: service, s: s, perTask: make([][]c18Call, kernel.MaxTasks), ncalls: make([]int, kernel.MaxTasks), maxCall: 4000}
 	resolver := npm.NewResolver(rec)
+	phase := uint64(0)
+	var runOp func(slot int, op *c18Op)
 	fns := make([]func(*kernel.Task), ntasks)
 	for i := range programs {
 		i := i
-		tctx := context.Background()
 		fns[i] = func(*kernel.Task) {
 			for _, op := range programs[i] {
-				rec.ncalls[i] = 0
 				s.Yield(kernel.KindOp, "op-start", false)
+				runOp(i, op)
+				s.Yield(kernel.KindOp, "op-end", false)
+			}
+		}
+	}
+	runOp = func(i int, op *c18Op) {
+		{
+			{
+				rec.ncalls[i] = 0
+				// every operation has a context of its own (a fault may cancel it)
+				tctx, cancel := context.WithCancel(context.Background())
+				defer cancel()
+				if faulty {
+					service.cancels[i] = cancel
+					service.plan(i, op.Fault, op.FaultLabel, op.FaultAt, 2+op.FaultAt%3)
+				}
+				op.start = phase<<32 | rec.s.Stamp()
+				defer func() {
+					op.fired = service.taskFired(i)
+					service.plan(i, faultNone, 0, 0, 1)
+					op.end = phase<<32 | rec.s.Stamp()
+				}()
 				switch op.Kind {
 				case "Resolve":
 					g, err, pv := resolveOnce(resolver, tctx, op.Key)
@@ -828,7 +973,6 @@ func RunC18(t *kernel.Tape, o Opts) *Result {
 						}
 					}()
 				}
-				s.Yield(kernel.KindOp, "op-end", false)
 			}
 		}
 	}
@@ -854,6 +998,29 @@ func RunC18(t *kernel.Tape, o Opts) *Result {
 		res.Status = "budget"
 		return res
 	}
+	// Once the faults have stopped: a few clean operations, one after the
+	// other, on the same client and resolver.
+	if len(epilogue) > 0 {
+		es := kernel.NewSched(t, kernel.Config{Mode: kernel.ModeSerial})
+		rec.base = s.Stamp()
+		rec.s, service.s = es, es
+		phase = 1
+		okE := es.Run([]func(*kernel.Task){func(*kernel.Task) {
+			for _, op := range epilogue {
+				runOp(0, op)
+			}
+		}})
+		if !okE {
+			res.Status = "stalled"
+			return res
+		}
+		if es.Aborted || t.Over {
+			res.Status = "budget"
+			return res
+		}
+		res.Yields += es.Yields
+		programs = append(programs, epilogue)
+	}
 	res.RaceSteps = s.Races()
 	fault(res, "reordered_completions", s.Reorders)
 	fault(res, "rpc_preemptions", s.MidOpSwitch-s.LockPreempt)
@@ -863,17 +1030,27 @@ func RunC18(t *kernel.Tape, o Opts) *Result {
 	}
 
 	// Oracle: no panic; Resolve differential against the model universe.
-	for i := len(programs); i < s.N(); i++ {
+	for i := ntasks; i < s.N(); i++ {
 		if pv := s.TaskPanic(i); pv != nil {
 			violate(res, "panic", "panic:spawned-goroutine", 0, "a goroutine started by the code under test panicked: %v", pv)
 		}
 	}
 	probe(res, "goroutines_of_code_under_test", s.Spawned)
 	for i, ops := range programs {
-		if pv := s.TaskPanic(i); pv != nil {
-			violate(res, "panic", "panic:harness-task", 0, "task %d panicked outside an operation: %v", i, pv)
+		if i < ntasks {
+			if pv := s.TaskPanic(i); pv != nil {
+				violate(res, "panic", "panic:harness-task", 0, "task %d panicked outside an operation: %v", i, pv)
+			}
 		}
 		for j, op := range ops {
+			if op.fired {
+				// an aborted operation: what it returned is its own business
+				fault(res, "op_"+faultNames[op.Fault], 1)
+				if op.pv != nil {
+					probe(res, "aborted_op_panicked", 1)
+				}
+				continue
+			}
 			if op.pv != nil {
 				violate(res, "panic", "panic:"+op.Kind, j, "task %d: %s panicked: %v", i, op, op.pv)
 				continue
@@ -881,6 +1058,27 @@ func RunC18(t *kernel.Tape, o Opts) *Result {
 			if op.Kind == "Resolve" {
 				if op.nodes >= 2 {
 					probe(res, "graphs_ge2_nodes", 1)
+				}
+				afterFault, overlapsErrors := false, false
+				for _, xs := range programs {
+					for _, x := range xs {
+						if !x.fired || x == op {
+							continue
+						}
+						if x.end < op.start {
+							afterFault = true
+						} else if x.start < op.end && x.Fault >= faultErrOnce {
+							overlapsErrors = true
+						}
+					}
+				}
+				if overlapsErrors {
+					// the service was failing calls while this resolution ran
+					probe(res, "clean_op_overlapping_rpc_errors", 1)
+					continue
+				}
+				if afterFault {
+					probe(res, "clean_resolves_judged_after_an_aborted_op", 1)
 				}
 				if op.sig != refSig[op.Key] {
 					violate(res, "result-mismatch", "result-mismatch:api-vs-local", j, "task %d: %s through the APIClient differs from resolving the same data in a LocalClient.\n--- local:\n%s\n--- api:\n%s", i, op, refDesc[op.Key], op.desc)
@@ -900,7 +1098,18 @@ func RunC18(t *kernel.Tape, o Opts) *Result {
 	parts := map[string][]porcupine.Operation{}
 	regBy := map[string]map[int]uint64{} // root -> task -> first return stamp of a registering call
 	crossReads, earlyReads := 0, 0
+	failedReg := map[string][]porcupine.Operation{} // root -> Requirements calls that failed under a fault
 	for _, c := range all {
+		if !c.found && c.faulted {
+			// a call that did not succeed while a fault of its operation was in
+			// effect (an error, or an absence the failing service did not deny)
+			probe(res, "calls_failed_under_fault", 1)
+			if c.kind == "Requirements" && !strings.Contains(c.key.Name, ">") {
+				root := c.key.Name + " " + c.key.Version
+				failedReg[root] = append(failedReg[root], porcupine.Operation{ClientId: c.task, Input: linIn{reg: true}, Call: int64(c.call), Output: linOut{}, Return: int64(c.ret)})
+			}
+			continue
+		}
 		if c.errText != "" {
 			violate(res, "model-mismatch", "model-mismatch:unexpected-error:"+c.kind, int(c.call), "%s(%s %s) returned an unexpected error: %s", c.kind, c.key.Name, c.key.Version, c.errText)
 			continue
@@ -981,7 +1190,28 @@ func RunC18(t *kernel.Tape, o Opts) *Result {
 			continue
 		}
 		probe(res, "linearizability_checks", 1)
-		switch porcupine.CheckOperationsTimeout(c18LinModel, ops, 30*time.Second) {
+		verdict := porcupine.CheckOperationsTimeout(c18LinModel, ops, 30*time.Second)
+		if fr := failedReg[r]; verdict == porcupine.Illegal && len(fr) > 0 {
+			// A Requirements call that failed under a fault may or may not
+			// have registered bundles: the history is legal if it is legal
+			// with some subset of them taking effect.
+			if len(fr) > 4 {
+				verdict = porcupine.Unknown
+			}
+			for m := 1; m < 1<<len(fr) && verdict == porcupine.Illegal; m++ {
+				with := append([]porcupine.Operation(nil), ops...)
+				for b := range fr {
+					if m&(1<<b) != 0 {
+						with = append(with, fr[b])
+					}
+				}
+				if v := porcupine.CheckOperationsTimeout(c18LinModel, with, 30*time.Second); v != porcupine.Illegal {
+					verdict = v
+					probe(res, "linearizable_only_with_a_failed_registration_taking_effect", 1)
+				}
+			}
+		}
+		switch verdict {
 		case porcupine.Illegal:
 			var hist []string
 			for _, op := range ops {
@@ -1041,6 +1271,9 @@ func RunC18(t *kernel.Tape, o Opts) *Result {
 				continue
 			}
 			if !registered {
+				if found && len(failedReg[root]) > 0 {
+					continue // a failed registration may have taken effect
+				}
 				if found {
 					violate(res, "model-mismatch", "model-mismatch:four-call:found-unregistered", 0, "%s(%s) succeeds although the requirements of %s were never requested", c.kind, c.key.Name, root)
 				}
